@@ -71,14 +71,43 @@ class Ctl:
         self.sites = []
 
     def at(self, site, resp):
+        render, exc = self._enter(site, resp)
+        if render:
+            try:
+                resp.render_body()      # public API; fills the rendered-media cache before anything is raised
+            except Exception as ex:  # noqa - must not be mistaken for a planned raise
+                self.harness_error = 'early render_body() failed at %s: %r' % (site, ex)
+                return
+        self._leave(site, exc)
+
+    async def aat(self, site, resp):
+        render, exc = self._enter(site, resp)
+        if render:
+            try:
+                await resp.render_body()
+            except Exception as ex:  # noqa
+                self.harness_error = 'early render_body() failed at %s: %r' % (site, ex)
+                return
+        self._leave(site, exc)
+
+    def _enter(self, site, resp):
         self.sites.append(site)
         ent = self.plan.get(site)
         if ent is None:
-            return
+            return False, None
         preset, exc = ent
+        render = False
         if preset and resp is not None:
             apply_preset(resp, preset)
             self.log.append(('preset', site, preset))
+            render = bool(preset.get('render'))
+            if render and 'media' in preset and 'ctype' not in preset:
+                # the component that renders its media says what it is (an earlier error rendering may have left
+                # any Content-Type behind)
+                resp.content_type = falcon.MEDIA_JSON
+        return render, exc
+
+    def _leave(self, site, exc):
         if exc is not None:
             try:
                 inst = self.prog.make_exc(exc)
@@ -169,31 +198,31 @@ def build_asgi_parts(ctl):
             self.i = i
 
         async def process_request(self, req, resp):
-            ctl.at('mw%d.req' % self.i, resp)
+            await ctl.aat('mw%d.req' % self.i, resp)
 
         async def process_resource(self, req, resp, resource, params):
-            ctl.at('mw%d.rsrc' % self.i, resp)
+            await ctl.aat('mw%d.rsrc' % self.i, resp)
 
         async def process_response(self, req, resp, resource, req_succeeded):
-            ctl.at('mw%d.resp' % self.i, resp)
+            await ctl.aat('mw%d.resp' % self.i, resp)
 
     async def hook_before(req, resp, resource, params):
-        ctl.at('before', resp)
+        await ctl.aat('before', resp)
 
     async def hook_after(req, resp, resource):
-        ctl.at('after', resp)
+        await ctl.aat('after', resp)
 
     class Res:
         @falcon.before(hook_before)
         @falcon.after(hook_after)
         async def on_get(self, req, resp, id):
-            ctl.at('responder', resp)
+            await ctl.aat('responder', resp)
 
         on_post = on_get
         on_head = on_get
 
     async def sink(req, resp, **kw):
-        ctl.at('sink', resp)
+        await ctl.aat('sink', resp)
 
     return [MW(0), MW(1)], Res(), sink
 
@@ -275,6 +304,8 @@ class Program:
         if self.cfg.get('boom'):
             opts.media_handlers[BOOM_TYPE] = BoomHandler(self.ctl)
             self.custom_types.add(BOOM_TYPE)
+        if self.cfg.get('odd_handler_key'):
+            opts.media_handlers[self.cfg['odd_handler_key']] = C04Handler()
         # the stock response handlers for forms can be dropped (in place, or by installing a new Handlers object),
         # down to a JSON-only or even an empty handler set
         mode = self.cfg.get('handlers_mode', 'stock')
@@ -710,6 +741,8 @@ class Checker:
                 self.report('handler-saw-stale-body', rq, {'handler': ev[1], 'seen_text_data_media': repr(ev[3])})
         if any(e[0] == 'preset' for e in log):
             rec.count('req.body_set_before_raise')
+        if any(e[0] == 'preset' and e[2].get('render') for e in log):
+            rec.count('req.body_rendered_before_raise')
         if len(raises) > 1:
             rec.count('req.multi_raise')
         # ---- nothing may escape
@@ -912,14 +945,22 @@ class Checker:
         if method == 'HEAD':
             rec.count('body.not_applicable')
             return
-        if not info['loose'] and any(has_surrogate(x) for x in info_strings(info)):
-            # an unpaired surrogate has no UTF-8 form and no XML character reference: no representation can be
-            # faithful, so only "handled, status, headers, Vary" (all checked above) is demanded
-            rec.count('body.unencodable_code_points')
-            return
         body = out['body']
         ctype = essence((hvalues(out, 'content-type') or [''])[0])
+        if not info['loose'] and any(has_surrogate(x) for x in info_strings(info)):
+            rec.count('body.unpaired_surrogate_in_error')
+            if body and ((ctype in M.XML_TYPES and ctype not in prog.custom_types) or ctype == M.URLENC):
+                # an unpaired surrogate has no XML character reference and no percent-encoded UTF-8 form: these
+                # representations cannot be faithful; JSON-based ones can (\uXXXX escape) and are judged below
+                rec.count('body.unencodable_code_points')
+                return
         allowed = M.negotiate(accept, cands)
+        if prog.cfg.get('odd_handler_key'):
+            # a handler registered under a key that is no media type (type/subtype): what the client "prefers"
+            # among such candidates is undefined -> weak check (body empty, or faithful in the announced type);
+            # handled / status / headers / Vary stay unconditional
+            rec.count('negotiation.undefined_handler_key_not_a_media_type')
+            allowed = None
         if allowed is not None:
             allowed = set(allowed)
             if '+xml-unavailable' in allowed:
@@ -1293,6 +1334,8 @@ def rand_preset(rng):
         p['status'] = rng.choice([201, 202, 404])
     if rng.random() < 0.3:
         p['vary'] = rng.choice(VARY_VALUES)
+    if rng.random() < 0.3:
+        p['render'] = True      # the component renders the body it has just set (digest / ETag / logging)
     return p
 
 
@@ -1377,12 +1420,16 @@ def rand_accept(rng):
     return rng.choice([', ', ',', ' , ', ',\t']).join(parts)
 
 
+ODD_HANDLER_KEYS = ['yaml', 'msgpack', 'json', 'application', 'x-c04;v=1']
+
+
 def rand_cfg(rng, boom=False):
     return {'xml': rng.random() < 0.7, 'custom_media': rng.random() < 0.5,
             'json_handler': rng.choice(['default', 'default', 'custom', 'removed']),
             'xml_handler': rng.random() < 0.2, 'independent': rng.random() < 0.6, 'boom': boom,
             'handlers_mode': rng.choice(['stock', 'stock', 'forms_deleted', 'replaced']),
-            'warnings': 'error' if rng.random() < 0.2 else 'default'}
+            'warnings': 'error' if rng.random() < 0.2 else 'default',
+            'odd_handler_key': rng.choice(ODD_HANDLER_KEYS) if rng.random() < 0.08 else None}
 
 
 ROOT_CHOICES = ['Exception', 'Exception', 'HTTPError', 'HTTPNotFound', 'HTTPStatus', 'ValueError', 'LookupError',
@@ -1539,6 +1586,10 @@ def rand_request(rng, classes_spec, cfg):
         plan = [p for p in plan if p[0] in SITES_REQ and p[2] is None]
         plan.append(['responder', {'media': {'x': [1, 2]}, 'ctype': BOOM_TYPE}, None])
         plan.append(['render', None, rand_exc_spec(rng, classes_spec)])
+    if cfg.get('json_handler') == 'removed':
+        for p_ in plan:         # rendering media early needs a JSON handler; keep such apps coherent
+            if p_[1]:
+                p_[1].pop('render', None)
     rq['plan'] = plan
     return rq
 
@@ -1810,7 +1861,35 @@ E6_CFGS = [{'independent': True, 'warnings': 'error'},
            {'independent': True, 'warnings': 'error', 'custom_media': True, 'json_handler': 'custom'},
            {'independent': False, 'warnings': 'error', 'xml': False, 'xml_handler': True},
            {'independent': True, 'warnings': 'error', 'xml': False, 'handlers_mode': 'replaced'},
-           {'independent': True, 'warnings': 'error', 'json_handler': 'removed', 'handlers_mode': 'forms_deleted'}]
+           {'independent': True, 'warnings': 'error', 'json_handler': 'removed', 'handlers_mode': 'forms_deleted'},
+           # a media handler registered under a key that is not type/subtype
+           {'independent': True, 'odd_handler_key': 'yaml'},
+           {'independent': False, 'odd_handler_key': 'msgpack', 'xml': False, 'handlers_mode': 'forms_deleted',
+            'warnings': 'error', 'custom_media': True}]
+
+E8_PRESETS = [{'media': {'early': ['rendered', 1]}, 'render': True},
+              {'media': {'early': 'rendered'}, 'ctype': CUSTOM_TYPE, 'render': True},
+              {'text': 'early text', 'render': True},
+              {'data': 'early data', 'media': {'early': 2}, 'status': 201, 'vary': 'Cookie', 'render': True}]
+E8_FLOWS = [('responder', 'responder'), ('responder', 'after'), ('responder', 'mw1.resp'), ('mw0.req', 'before'),
+            ('sink', 'mw0.resp'), ('mw1.resp', 'mw0.resp')]
+E8_ACCEPTS = [None, CUSTOM_TYPE, 'text/xml', 'image/png', M.URLENC, CUSTOM_TYPE + ';q=0.9, application/json;q=0.1']
+
+
+def e8_requests():
+    """a component sets the body and renders it through the public API; an exception is raised afterwards"""
+    kinds = [E2_KINDS[i] for i in (0, 1, 2, 3, 6, 9, 11)] + [{'cls': 'HTTPGone', 'description': 'gone'}]
+    out = []
+    for preset in E8_PRESETS:
+        for s1, s2 in E8_FLOWS:
+            for exc in kinds:
+                for acc in E8_ACCEPTS:
+                    plan = [[s1, dict(preset), exc]] if s1 == s2 else [[s1, dict(preset), None], [s2, None, exc]]
+                    rq = {'method': 'POST', 'accept': acc, 'plan': plan}
+                    if s1 == 'sink':
+                        rq['path'] = 'sink'
+                    out.append(rq)
+    return out
 
 
 def e6_program(stack, cfg):
@@ -1917,7 +1996,15 @@ def run(rec):
         mine = [r for r in reqs if (idx := idx + 1) % n == me]   # noqa
         chunked_program(rec, base, mine, size=100)
         rec.count('e5.requests', len(mine))
-    # ---- E6: the same decisions in a process that turns warnings into errors
+    # ---- E8: body rendered early through the public API, exception afterwards; every representation
+    e8 = e8_requests()
+    for stack in ('wsgi', 'asgi'):
+        mine = [r for r in e8 if (idx := idx + 1) % n == me]   # noqa
+        base = {'stack': stack, 'cfg': {'independent': True, 'custom_media': True}, 'classes': E2_CLASSES,
+                'handlers': E2_HANDLERS, 'steps': list(E2_REGS)}
+        chunked_program(rec, base, mine, size=100)
+        rec.count('e8.requests', len(mine))
+    # ---- E6: the same decisions in a process that turns warnings into errors / with unusual handler keys
     for cfg in E6_CFGS:
         for stack in ('wsgi', 'asgi'):
             base, reqs = e6_program(stack, cfg)
@@ -1963,7 +2050,8 @@ def run(rec):
         'chain.wrote_media_then_raise_status': 150, 'chain.wrote_text_then_raise_http': 40,
         'mon.no_escape.accept_with_obs_text_octets': 1500, 'mon.no_escape.warnings_as_errors': 3000,
         'env.warnings_as_errors_programs': 10,
-        'body.unencodable_code_points': 150, 'req.error_with_unpaired_surrogate': 500,
+        'body.unencodable_code_points': 60, 'body.unpaired_surrogate_in_error': 400,
+        'req.body_rendered_before_raise': 1500, 'negotiation.undefined_handler_key_not_a_media_type': 1000, 'req.error_with_unpaired_surrogate': 500,
         'sel.advertised_class_differs': 1000,
         'cfg.single_candidate': 800, 'cfg.few_candidates': 1500, 'cfg.stock_or_more_candidates': 4000,
         'vary.error_defines_members': 500, 'vary.set_before_raise': 550, 'negotiation.mixed_case_decided': 300,
